@@ -131,22 +131,29 @@ where
 
     /// Write back a block you read with [`Self::read_mut`] and then modified.
     pub fn write_back(&mut self) -> Result<(), D::Error> {
-        self.block_device.write(
-            &self.block,
-            self.block_idx.expect("write_back with no read"),
-        )
+        let block_idx = self.block_idx.expect("write_back with no read");
+        let result = self.block_device.write(&self.block, block_idx);
+        if result.is_err() {
+            // the device does not hold what we hold: forget the block
+            self.block_idx = None;
+        }
+        result
     }
 
     /// Write back a block you read with [`Self::read_mut`] and then modified, but to two locations.
     ///
     /// This is useful for updating two File Allocation Tables.
     pub fn write_back_with_duplicate(&mut self, duplicate: BlockIdx) -> Result<(), D::Error> {
-        self.block_device.write(
-            &self.block,
-            self.block_idx.expect("write_back with no read"),
-        )?;
-        self.block_device.write(&self.block, duplicate)?;
-        Ok(())
+        let block_idx = self.block_idx.expect("write_back with no read");
+        let result = self
+            .block_device
+            .write(&self.block, block_idx)
+            .and_then(|_| self.block_device.write(&self.block, duplicate));
+        if result.is_err() {
+            // the device does not hold what we hold: forget the block
+            self.block_idx = None;
+        }
+        result
     }
 
     /// Access a blank sector
